@@ -11,8 +11,24 @@ regime tag of the executor's protocol is dropped by `model_line`):
   ar_pred1 <intercept> <vec coeffs> <vec hist>      -> `= <float>`
   ar_pred <intercept> <vec coeffs> <h> <vec hist>   -> `= <vec>`
   ar_fp <p> <h> <vec data>                          -> `= <intercept> <vec coeffs> <pred1> <vec preds>`
+  ar_refit <p> <h> <k> <vec s1> … <vec sk>          -> k blocks `<intercept> <vec coeffs> <vec preds>`: one object
+        fitted k times.  `AR::fit` overwrites `intercept` and `coeffs` and reads only `self.p`, so every fit is
+        a fresh fit of order `p` in the model.
 -/
 open Cv Cv.TS
+
+def c13Refit (p h : Nat) : List (List Float) → Option (List String)
+  | [] => some []
+  | s :: rest =>
+    match arFit p s with
+    | none => none
+    | some (ic, c) =>
+      match predict c ic s h with
+      | none => none
+      | some r =>
+        match c13Refit p h rest with
+        | none => none
+        | some out => some (showFloat ic :: showVec c :: showVec r :: out)
 
 def c13Lags (kmax : Nat) : List Int := (List.range (2 * kmax + 1)).map fun (i : Nat) => (i : Int) - (kmax : Int)
 
@@ -54,6 +70,13 @@ def c13Step (args : List String) : String :=
         match predict c ic d n with
         | none => panicked
         | some r => ok (showFloat ic ++ " " ++ showVec c ++ " " ++ showFloat (predictOne c ic d) ++ " " ++ showVec r)
+  | "ar_refit" :: rest =>
+    withArgs (do let p ← pNat; let h ← pNat; let k ← pNat; let ss ← pMany pVec k; pure (p, h, ss)) rest
+      fun (p, h, ss) =>
+      if p = 0 then panicked
+      else match c13Refit p h ss with
+        | none => panicked
+        | some out => ok (" ".intercalate out)
   | _ => badOp
 
 def main (args : List String) : IO UInt32 := mainWith () (fun _ t => ((), c13Step t)) args
